@@ -188,6 +188,30 @@ def check(ctx: Ctx) -> None:
             ctx.ob("C19.load", f"{short}::{'nulls' if none else 'values'}", ok,
                    f"{short}.{hook.name}(data) gives {out[:3] if out[0] != 'ret' else out[1]!r} for data {holder.get('data')}; it must build {mcls.name} with exactly those values. {detail}",
                    file=scls.file, line=hook.node.lineno, function=hook.qualname)
+    # ---- ContentEvaluationResultSchema: every spelling of a state it accepts on load means the member of that name
+    cers, cerm = model.cls(PAIRS[4][0]), model.cls(PAIRS[4][1])
+    cer_hook = post_load_hook(model, cers, "post_load")
+    cfv_members = model.enum_members(model.cls("ahbicht.models.condition_nodes.ConditionFulfilledValue"))
+    if cer_hook is not None:
+        cmf = model.attrs_fields(cerm)
+        for mname, mvalue in cfv_members.items():
+            for spelling in sorted({mvalue, mvalue.lower(), mvalue.capitalize(), f" {mvalue}"} if isinstance(mvalue, str) else {mvalue}):
+                def data(it, spelling=spelling):
+                    d = {f: sample_value(it, model, f, info, False) for f, info in cmf.items()}
+                    d["requirement_constraints"] = {"1": spelling}
+                    return d
+
+                out = run_hook(model, cer_hook, cers.qualname, data)
+                ctx.count()
+                if out[0] == "raise":
+                    ok = spelling != mvalue  # rejecting an unusual spelling is fine, rejecting the canonical one is not
+                    got = out[1]
+                else:
+                    got = out[1].fields.get("requirement_constraints", {}).get("1") if isinstance(out[1], Obj) else out[1]
+                    ok = isinstance(got, EnumVal) and got.name == mname
+                ctx.ob("C19.load", f"ContentEvaluationResultSchema::state-spelling:{spelling!r}", ok,
+                       f"ContentEvaluationResultSchema.{cer_hook.name} loads the requirement constraint state {spelling!r} as {got!r}; it must mean {mname} (or be rejected)",
+                       file=cers.file, line=cer_hook.node.lineno, function=cer_hook.qualname)
     # ---- RequirementIndicatorSchema: dump -> load is the identity on all six members
     ris = model.cls(f"{ENUMS}.RequirementIndicatorSchema")
     pd, pl, prl = post_load_hook(model, ris, "post_dump"), post_load_hook(model, ris, "post_load"), post_load_hook(model, ris, "pre_load")
